@@ -36,10 +36,19 @@ type CPExpect struct {
 	RamSize int // `ramsize:` given by the user
 	RamData int // number of RAM data words (0 = none)
 	SOs     int // shared objects attached to the processor
+	// a processor with RAM code too (execmode hy): the machine JSON carries the ROM program only (RAM images travel in
+	// the BCOF file, creatorbcof.go:114-130, assembled on THIS architecture), so the architecture has to hold what the
+	// RAM code mentions as well
+	Mode      string // execution mode the source asks for ("" = not known)
+	RamInstr  int    // instructions of the RAM code section (0 = none)
+	RamMaxReg int    // highest register / ports the RAM code names (-1 none)
+	RamMaxIn  int
+	RamMaxOut int
+	RamOps    []string // opcodes (after pseudo-instruction resolution) the RAM code uses
 }
 
 func unknownCP() CPExpect {
-	return CPExpect{MaxReg: -1, MaxIn: -1, MaxOut: -1, Instr: -1, Data: -1, MaxJump: -1, MaxRam: -1, RomSize: -1, RamSize: -1, SOs: -1}
+	return CPExpect{MaxReg: -1, MaxIn: -1, MaxOut: -1, Instr: -1, Data: -1, MaxJump: -1, MaxRam: -1, RomSize: -1, RamSize: -1, SOs: -1, RamMaxReg: -1, RamMaxIn: -1, RamMaxOut: -1}
 }
 
 // Expect is what the source says about the whole machine (zero / -1 / nil = unknown).
@@ -74,6 +83,18 @@ func bitsFor(n int) int { // smallest b >= 1 with 2^b >= n (the width of a field
 		b++
 	}
 	return b
+}
+
+func opNames(m *procbuilder.Machine) []string {
+	var r []string
+	for _, o := range m.Op {
+		if o == nil {
+			r = append(r, "<nil>")
+		} else {
+			r = append(r, o.Op_get_name())
+		}
+	}
+	return r
 }
 
 func archLine(m *procbuilder.Machine) string {
@@ -125,21 +146,21 @@ func wfCP(what string, m *procbuilder.Machine, bmRsize uint8, ex *CPExpect) *pbt
 			return pbt.Failf("wf:ops-sorted", "%s: opcode %d is nil [%s]", what, i, al)
 		}
 		if i > 0 && !(m.Op[i-1].Op_get_name() < op.Op_get_name()) {
-			return pbt.Failf("wf:ops-sorted", "%s: opcode list not strictly ascending at %d: %q then %q [%s]", what, i, m.Op[i-1].Op_get_name(), op.Op_get_name(), al)
+			return pbt.Failf("wf:ops-sorted", "%s: opcode list %v is not sorted and duplicate-free: at %d %q then %q [%s]", what, opNames(m), i, m.Op[i-1].Op_get_name(), op.Op_get_name(), al)
 		}
 	}
 	if _, ok := m.ConstraintCheck(); !ok {
 		return pbt.Failf("wf:constraint", "%s: Machine.ConstraintCheck() is false [%s]", what, al)
 	}
 	nwords := len(m.Slocs) + len(m.Vars)
+	// the words of the machine JSON are the ROM program (ha, hy) or the RAM program (vn)
 	addrBits := int(m.O)
-	switch m.Modes[0] {
-	case "vn":
+	if m.Modes[0] == "vn" {
 		addrBits = int(m.L)
-	case "hy":
-		if int(m.L) > addrBits {
-			addrBits = int(m.L)
-		}
+	}
+	jumpBits := addrBits // width of a jump's location field
+	if m.Modes[0] == "hy" && int(m.L) > jumpBits {
+		jumpBits = int(m.L)
 	}
 	if addrBits > 30 {
 		return pbt.Failf("wf:rom-size", "%s: %d address bits [%s]", what, addrBits, al)
@@ -213,6 +234,13 @@ func wfCP(what string, m *procbuilder.Machine, bmRsize uint8, ex *CPExpect) *pbt
 				}
 			} else if reNum.MatchString(tok) && len(tok) < 10 {
 				k, _ := strconv.Atoi(tok)
+				if romJumps[name] && m.Modes[0] == "hy" {
+					// a hybrid processor jumps into ROM or RAM: only the width of the location field is known
+					up(&men.maxJump, k)
+					if k >= (1 << uint(jumpBits)) {
+						return pbt.Failf("wf:jump", "%s: ROM word %d %q = `%s` jumps to %d, locations have %d bits [%s]", what, a, w, line, k, jumpBits, al)
+					}
+				}
 				if romJumps[name] && m.Modes[0] == "ha" {
 					up(&men.maxJump, k)
 					// the simulator halts at pc == len(Slocs) and fails beyond it (vm.go Step); the ROM has 2^O cells
@@ -247,6 +275,32 @@ func wfCP(what string, m *procbuilder.Machine, bmRsize uint8, ex *CPExpect) *pbt
 	if ex.Data >= 0 && len(m.Vars) != ex.Data {
 		return pbt.Failf("wf:rom-length", "%s: the source has %d ROM data words, the machine %d [%s]", what, ex.Data, len(m.Vars), al)
 	}
+	if ex.Mode != "" && m.Modes[0] != ex.Mode {
+		return pbt.Failf("wf:mode", "%s: the source asks execmode %s, the machine runs %s [%s]", what, ex.Mode, m.Modes[0], al)
+	}
+	if ex.RamInstr > 0 {
+		if (1 << uint(m.L)) < ex.RamInstr+ex.RamData {
+			return pbt.Failf("wf:ram-size", "%s: the source has %d RAM instructions + %d RAM data words, the RAM has 2^%d cells [%s]", what, ex.RamInstr, ex.RamData, m.L, al)
+		}
+		if ex.RamMaxReg >= (1 << uint(m.R)) {
+			return pbt.Failf("wf:reg-file", "%s: the RAM code names r%d, the register file has 2^%d registers [%s]", what, ex.RamMaxReg, m.R, al)
+		}
+		if ex.RamMaxIn >= int(m.N) {
+			return pbt.Failf("wf:inputs", "%s: the RAM code names input %d, the processor has %d inputs [%s]", what, ex.RamMaxIn, m.N, al)
+		}
+		if ex.RamMaxOut >= int(m.M) {
+			return pbt.Failf("wf:outputs", "%s: the RAM code names output %d, the processor has %d outputs [%s]", what, ex.RamMaxOut, m.M, al)
+		}
+		have := map[string]bool{}
+		for _, op := range m.Op {
+			have[op.Op_get_name()] = true
+		}
+		for _, o := range ex.RamOps {
+			if !have[o] {
+				return pbt.Failf("wf:opcode-range", "%s: the RAM code uses %s, the processor's opcodes are %v [%s]", what, o, opNames(m), al)
+			}
+		}
+	}
 	if ex.MaxReg >= 0 {
 		if ex.MaxReg >= (1 << uint(m.R)) {
 			return pbt.Failf("wf:reg-file", "%s: the source names r%d, the register file has 2^%d registers [%s]", what, ex.MaxReg, m.R, al)
@@ -272,8 +326,8 @@ func wfCP(what string, m *procbuilder.Machine, bmRsize uint8, ex *CPExpect) *pbt
 		}
 	}
 	if ex.MaxJump >= 0 {
-		if ex.MaxJump >= (1 << uint(m.O)) {
-			return pbt.Failf("wf:jump", "%s: the source jumps to %d, the ROM has 2^%d cells [%s]", what, ex.MaxJump, m.O, al)
+		if ex.MaxJump >= (1 << uint(addrBits)) {
+			return pbt.Failf("wf:jump", "%s: the source jumps to %d, the ROM has 2^%d cells [%s]", what, ex.MaxJump, addrBits, al)
 		}
 		if men.maxJump < ex.MaxJump {
 			return pbt.Failf("wf:dropped-operand", "%s: the source jumps to %d, the highest target in the ROM is %d [%s]", what, ex.MaxJump, men.maxJump, al)
